@@ -3,6 +3,17 @@ import json, os
 VERIF = os.path.dirname(os.path.dirname(os.path.abspath(__file__)))
 PROOF = "proof"
 CHECKS = {
+ "C03": dict(
+    text="Lean 4 theorem (goKey_spec, by induction on the key) about an output-faithful model of _process_key/__getitem__: for every "
+         "key in the grammar (ints incl. negative, positive-step slices clipped as Python does, None, Ellipsis, one contiguous run of "
+         "index arrays) the result read at an output index equals the original tensor read at the source index (natural indexing), "
+         "scalar exit included; second run / out-of-range / bad step are rejected. Model tied to /repo by bit-exact comparison of the "
+         "emitted cores and factors and of the accepted/rejected key sets.",
+    note="Trusted: Lean kernel + standard axioms; harness/driver glue; NumPy as oracle for natural indexing (two-step evaluation); "
+         "sampling correspondence. The shape clause is checked by the correspondence (model shape vs implementation vs NumPy); the "
+         "theorem is stated for keys that fit the tensor (fits) — ill-formed keys are covered by the error theorems and the malformed stream.",
+    tech="Lean 4 proof (state-machine invariant: pending integer factor × processed suffix = chain read through the key) + differential correspondence",
+    ref="§3 C03"),
  "C01": dict(
     text="Lean 4 theorems: _full_rank_tt's chain decompresses to the array it was built from (any number of modes, any sizes incl. 1; "
          "mixed-radix loop invariant), decompress_tucker_factors (all / any subset), tt() (whole-tensor CP→TT), clone and transpose (chain "
